@@ -51,7 +51,7 @@ CHECKS["C13"] = dict(
             dict(harness="val", variant="asan", args=["--mode", "values"], prefix="long_"),   # includes the trace with more than 2^16 blocks per output and a rotation at exactly 2^16
             dict(harness="hist", variant="plain", args=["--mode", "rotate", "--bfs", "8", "--abstract", "1"], prefix="bfs_", tiers=("quick",)),
             dict(harness="hist", variant="plain", args=["--mode", "rotate", "--bfs", "10", "--abstract", "1"], prefix="bfs_", tiers=("thorough",))],
-    rule="stateless DFS over an 11-operation alphabet x 2 configurations x {named file, descriptor} x {plain, gzip, xz}; every history of length 0..D; non-trivial = at least one operation",
+    rule="stateless DFS over an 11-operation alphabet x 2 configurations x {named file, descriptor, descriptor whose write(2) transfers at most 7 bytes per call (plain, gzip)} x {plain, gzip, xz}; every history of length 0..D; non-trivial = at least one operation",
     bound_quick="plain: length <= 4; gzip: <= 3; xz: <= 2", bound_thorough="plain: length <= 5; gzip: <= 4; xz: <= 3",
     assumptions=["name-created exporters are rotated to names, descriptor-created ones to descriptors (DESIGN 8.2)", "files live on tmpfs (/dev/shm)"],
 )
@@ -96,7 +96,7 @@ CHECKS["C10"] = dict(
             dict(harness="blk", variant="asan", args=["--mode", "direct"], prefix="direct_"),
             dict(harness="val", variant="asan", args=["--mode", "align"], prefix="align_"),
             dict(harness="ser", variant="asan", prefix="ser_")],
-    rule="E-ENC traces (see C06) + stateless DFS over 10 exporter operations x {memory, gzip, descriptor, named file} sinks x 3 parameter configurations (collection parameters full / present-but-empty / one member) + E-SER: each of the 20 serialisable structures x every subset of its optional members (<= 12 selector bits: all subsets; 16-17: empty, full, singles, pairs, complements; thorough: all 2^17) x {small, widest} values x fill levels of the encoder buffer, returned value vs. measured growth of the output",
+    rule="E-ENC traces (see C06) + stateless DFS over 10 exporter operations x {memory, gzip, descriptor, named file, descriptor with short writes} sinks x 3 parameter configurations (collection parameters full / present-but-empty / one member) + E-SER: each of the 20 serialisable structures x every subset of its optional members (<= 12 selector bits: all subsets; 16-17: empty, full, singles, pairs, complements; thorough: all 2^17) x {small, widest} values x fill levels of the encoder buffer, returned value vs. measured growth of the output",
     bound_quick="exporter histories of length <= 3; encoder: as C06 quick", bound_thorough="exporter histories of length <= 4 (+xz, gzip file); encoder: as C06 thorough",
     assumptions=[],
 )
